@@ -66,12 +66,19 @@ PROPS['C02'] = {
 }
 
 PROPS['C12'] = {
-    'sidecars': ['contracts/C12_locks.py'],
+    'sidecars': ['contracts/C12_locks.py', 'contracts/C05_framing.py'],
+    # the segment layer's contracts are read in their own registry (same file as C05 uses): their exceptional clauses are a C12 conjunct
+    'sidecar_groups': [['contracts/C12_locks.py'], ['contracts/C05_framing.py']],
     'level': 'proof',
     'explanation': 'Exceptional postconditions ("on every exit, normal or by any exception of the callee") discharged for the functions '
                    'that hold a lock across a call into a neighbouring layer: YowLayer.toLower, YowNoiseLayer._flush_incoming_buffer, '
                    'YowIqProtocolLayer.gotPong / waitPong: the lock is free again on every exit, the callee exception reaches the caller. '
-                   'Decides the sequential conjuncts of C12 only: "no lock stays held", "error reported to the caller"; other-thread '
+                   'Also the state a failure leaves behind in the segment layer (the contracts of C05, re-discharged here): when the layer '
+                   'above raises while a frame is handed upward, that frame has already been taken out of the read buffer and what remains '
+                   'parses to exactly the frames not yet delivered, so the failed frame is not delivered again and later frames are; an '
+                   'oversized outgoing frame is refused before anything is written. '
+                   'Decides the sequential conjuncts of C12 only: "no lock stays held", "error reported to the caller", "no stale state in '
+                   'the framing buffer"; other-thread '
                    'follow-ups and "nothing blocks forever" as a liveness claim are not decided (no thread model).',
     'assumptions': ['threading.Lock: assumed sequential contract (acquire requires not held by this thread, release requires held)',
                     'queue.Queue.qsize, WANoiseProtocol.receive, the neighbouring layers: opaque events that may raise anything',
